@@ -70,6 +70,8 @@ type Client struct {
 	Relay      *net.UDPAddr // model: relayed address of the live allocation (nil = none)
 	Perms      map[string]bool
 	Chan       map[uint16]string // number -> peer name
+	AllocTx    [12]byte          // transaction id of the Allocate that created the live allocation
+	AllocAttrs string            // rendering of that success response (idempotence of retransmissions)
 	backlog    [][]byte
 }
 
@@ -172,8 +174,16 @@ func newTx() (t [12]byte) {
 // request is known to have been dropped silently: (nil, silent=true). No
 // answer to the fence within 5 s makes the history inconclusive.
 func (w *World) Request(c *Client, method uint16, attrs func(b *wire.B)) (resp *wire.Msg, silent bool) {
+	return w.RequestTx(c, method, nil, attrs)
+}
+
+// RequestTx is Request with a fixed transaction id (nil = fresh ones).
+func (w *World) RequestTx(c *Client, method uint16, fixed *[12]byte, attrs func(b *wire.B)) (resp *wire.Msg, silent bool) {
 	for attempt := 0; attempt < 3; attempt++ {
 		tx, fence := newTx(), newTx()
+		if fixed != nil {
+			tx = *fixed
+		}
 		b := wire.New(method, wire.Request, tx)
 		if attrs != nil {
 			attrs(b)
@@ -273,6 +283,14 @@ func (w *World) Apply(ev Event) (sig, detail string) {
 	var resp *wire.Msg
 	silent := false
 	switch ev.K {
+	case "binding":
+		resp, silent = w.Request(c, wire.Binding, nil)
+	case "alloc-retx":
+		if !had {
+			return "", "" // nothing to retransmit
+		}
+		tx := c.AllocTx
+		resp, silent = w.RequestTx(c, wire.Allocate, &tx, func(b *wire.B) { b.U32(wire.AttrRequestedTransport, 17<<24) })
 	case "alloc":
 		resp, silent = w.Request(c, wire.Allocate, func(b *wire.B) { b.U32(wire.AttrRequestedTransport, 17<<24) })
 	case "refresh0":
@@ -290,7 +308,7 @@ func (w *World) Apply(ev Event) (sig, detail string) {
 	if resp == nil {
 		if silent {
 			w.Trace = append(w.Trace, ev.String()+"->silence")
-			if had || ev.K == "alloc" {
+			if had || ev.K == "alloc" || ev.K == "binding" {
 				return "resp:" + ev.K + ":request-dropped-silently", ev.String()
 			}
 		}
@@ -301,6 +319,17 @@ func (w *World) Apply(ev Event) (sig, detail string) {
 	w.Trace = append(w.Trace, fmt.Sprintf("%s->%d/%d", ev, resp.Class, resp.ErrorCode()))
 	want := true
 	switch ev.K {
+	case "binding":
+		ma, okM := resp.XorAddr(wire.AttrXORMappedAddress)
+		if !ok || !okM || !ma.IP.Equal(c.Addr.IP) || ma.Port != c.Addr.Port {
+			return "truth:binding-mapped-address", fmt.Sprintf("%s: mapped %v, socket %v", ev, ma, c.Addr)
+		}
+	case "alloc-retx":
+		if ok {
+			if got := renderAttrs(resp); got != c.AllocAttrs {
+				return "idempotence:retransmitted-allocate-differs", fmt.Sprintf("%s: %s vs original %s", ev, got, c.AllocAttrs)
+			}
+		}
 	case "alloc":
 		want = !had
 		if ok {
@@ -319,6 +348,8 @@ func (w *World) Apply(ev Event) (sig, detail string) {
 			}
 			if want {
 				c.Relay = ra
+				c.AllocTx = resp.TxID
+				c.AllocAttrs = renderAttrs(resp)
 			}
 		}
 	case "refresh0":
@@ -353,6 +384,19 @@ func (w *World) Apply(ev Event) (sig, detail string) {
 	}
 
 	return "", ""
+}
+
+// renderAttrs renders the attributes of a response except MESSAGE-INTEGRITY / FINGERPRINT.
+func renderAttrs(m *wire.Msg) string {
+	var out []string
+	for _, a := range m.Attrs {
+		if a.Type == wire.AttrMessageIntegrity || a.Type == 0x8028 {
+			continue
+		}
+		out = append(out, fmt.Sprintf("%#04x=%x", a.Type, a.Value))
+	}
+
+	return strings.Join(out, " ")
 }
 
 type delivery struct {
@@ -488,7 +532,7 @@ func (w *World) Sweep(after string) (sig, detail string) {
 		got := w.collect(want, 60*time.Millisecond, 5*time.Second)
 		seen := map[string]int{}
 		for _, d := range got {
-			if !strings.HasSuffix(d.body, fmt.Sprintf(":%d", w.seq)) {
+			if d.kind != "other" && !strings.HasSuffix(d.body, fmt.Sprintf(":%d", w.seq)) {
 				continue // a straggler of an earlier round: judged there
 			}
 			seen[d.at+"|"+d.body]++
@@ -499,6 +543,8 @@ func (w *World) Sweep(after string) (sig, detail string) {
 				}
 			}
 			switch {
+			case e == nil && d.kind == "other":
+				return "real:unsolicited-message:after=" + after, fmt.Sprintf("%s received %d bytes from %s that are neither relayed data nor an answer to its own request: % x", d.at, len(d.body), d.from, d.body[:min(len(d.body), 32)])
 			case e == nil:
 				dir := strings.SplitN(d.body, ":", 2)[0]
 
